@@ -67,6 +67,28 @@ def run(ctx: Ctx):
     if w != want_w:
         ctx.fail(cons, wr.loc(), f"the header is written as {w}; RFC 6733: version<<24|length, "
                  f"flags<<24|code, application id, hop-by-hop id, end-to-end id")
+    # the two 24-bit fields are bounded before they are or-ed with the octet above them
+    gw = cfg_of(wr)
+    atw = Atomizer(model, base, hdr)
+    for hi, lo in (("self.version", "self.length"), ("self.command_flags", "self.command_code")):
+        cons_b = f"MessageHeader.as_packed:{lo.split('.')[-1]}-fits-24-bits"
+        ctx.inst(cons_b)
+        pn = [n for n in gw.nodes if n.kind == "stmt" and any(
+            isinstance(c.func, ast.Attribute) and c.func.attr == "pack_uint" and c.args
+            and lo in ast.unparse(c.args[0]) for c in n.calls())]
+        for n in pn:
+            fx = must_facts(gw, atw, n)
+            okb = any((f_[0] == lo and f_[1] == ">" and f_[3] is False and str(f_[2]) in ("16777215", "0xffffff"))
+                      or (f_[1] == "chain" and f_[3] is True
+                          and f_[0].replace(" ", "").endswith(f"{lo}<=16777215"))
+                      or (f_[0] == lo and f_[1] == "<=" and f_[3] is True and str(f_[2]) == "16777215")
+                      for f_ in fx)
+            if not okb:
+                ctx.fail(cons_b, gw.loc(n), f"`{lo}` is or-ed into the word that also carries `{hi}` "
+                         f"without having been checked to fit 24 bits: a message of 16 MiB or more "
+                         f"(a command code above 0xffffff) is written with a wrapped field and a "
+                         f"changed {hi.split('.')[-1]} octet - the length field no longer equals the "
+                         f"byte count and the receiver loses the framing of everything behind it")
     # reader
     cons = "MessageHeader.from_bytes:words"
     reads = sorted([n for n in ast.walk(rd.node) if isinstance(n, ast.Assign)
